@@ -696,18 +696,34 @@ func startChain(e *chainEnv, gnum uint64, list, prev []ecommon.Address, coinbase
 
 // goodChild builds a header on p that satisfies the reference predicate: an allowed signer
 // (the in-turn one when preferInTurn and allowed), right difficulty, neutral fields.
-func (m *chainModel) goodChild(p *node, pick int, preferInTurn bool, epoch []ecommon.Address, root ecommon.Hash, dt uint64, gasStep int64) (*types.Header, int) {
+const (
+	turnAny    = 0 // signer chosen by pick
+	turnPrefer = 1 // the in-turn signer when allowed
+	turnAvoid  = 2 // an out-of-turn signer when one is allowed
+)
+
+// chooseSigner applies a turn mode to the allowed signers; inTurn is the in-turn address.
+func chooseSigner(allowed []ecommon.Address, inTurn ecommon.Address, pick, mode int) ecommon.Address {
+	signer := allowed[pick%len(allowed)]
+	switch mode {
+	case turnPrefer:
+		if indexOfAddr(allowed, inTurn) >= 0 {
+			signer = inTurn
+		}
+	case turnAvoid:
+		for k := 0; k < len(allowed) && signer == inTurn; k++ {
+			signer = allowed[(pick+1+k)%len(allowed)]
+		}
+	}
+	return signer
+}
+
+func (m *chainModel) goodChild(p *node, pick int, mode int, epoch []ecommon.Address, root ecommon.Hash, dt uint64, gasStep int64) (*types.Header, int) {
 	e := m.e
 	num := p.h.Number.Uint64() + 1
 	allowed, _ := m.allowedSigners(p)
 	S := p.snap.vals
-	signer := allowed[pick%len(allowed)]
-	if preferInTurn {
-		it := S[num%uint64(len(S))]
-		if indexOfAddr(allowed, it) >= 0 {
-			signer = it
-		}
-	}
+	signer := chooseSigner(allowed, S[num%uint64(len(S))], pick, mode)
 	diff := int64(1)
 	if S[num%uint64(len(S))] == signer {
 		diff = 2
